@@ -138,7 +138,12 @@ def negated_peak_obligation(frq, a, lo, hi, pf, pa):
     pfe, pae = Sym.lift(pf), key(pa)
     good = []
     for p in range(1, n - 1):
-        conds = [pfe == fe[p], pae == ae[p], ae[p - 1] <= ae[p], ae[p] >= ae[p + 1], il < p, p < ih]
+        # p is a local maximum: it lies on a flat run a[l..r] (l <= p <= r) whose outer neighbours are strictly lower
+        runs = []
+        for l in range(1, p + 1):
+            for r in range(p, n - 1):
+                runs.append(z3.And([ae[i] == ae[p] for i in range(l, r + 1)] + [ae[l - 1] < ae[l], ae[r + 1] < ae[r]]))
+        conds = [pfe == fe[p], pae == ae[p], z3.Or(runs), il < p, p < ih]
         if lo is not None:
             conds.append(fe[p] > lo.e)
         if hi is not None:
@@ -232,9 +237,22 @@ def run_updates(rep, tier, n, k1, k2):
 
 def _check_traditional(rep, ctx, h, frq, amps, lo, hi, cls, ranges, label=""):
     got = []
+    HC = L()["hvsr_curve"].HvsrCurve
     for i, a in enumerate(amps):
         pf, pa = h._main_peak_frq[i], h._main_peak_amp[i]
         got.append((pf, pa))
+        # the same curve as a single HvsrCurve must give the same answer
+        c = HC(frq, a)
+        c.update_peaks_bounded(search_range_in_hz=(lo, hi))
+        rep.obligations += 1
+        same = (is_nan(pf) and is_nan(c.peak_frequency)) or (not is_nan(pf) and not is_nan(c.peak_frequency)
+                                                             and ctx.check(z3.Or(Sym.lift(pf) != Sym.lift(c.peak_frequency), Sym.lift(pa) != Sym.lift(c.peak_amplitude))) == z3.unsat)
+        if same:
+            rep.discharged += 1
+        else:
+            rep.candidate(dict(curve_witness(cls, frq, amps, ranges)(ctx.model()[1]), check="curve-vs-window"),
+                          f"{label}window {i}: peak ({pf}, {pa}) differs from the peak of the same curve as a single HvsrCurve ({c.peak_frequency}, {c.peak_amplitude})",
+                          key="object-types-disagree")
         rep.prove(ctx, f"{label}window {i} peak", negated_peak_obligation(frq, a, lo, hi, pf, pa),
                   witness=curve_witness(cls, frq, amps, ranges))
         absent = is_nan(pf)
@@ -350,8 +368,16 @@ def _concrete_oracle(frq, a, lo, hi, pf, pa):
     def ok(strict_set):
         if pf is None or (isinstance(pf, float) and pf != pf):
             return not strict_set
+        def flat_top(p):
+            l = p
+            while l > 0 and a[l - 1] == a[p]:
+                l -= 1
+            r = p
+            while r < n - 1 and a[r + 1] == a[p]:
+                r += 1
+            return l >= 1 and r <= n - 2 and a[l - 1] < a[p] and a[r + 1] < a[p]
         for p in range(1, n - 1):
-            if (pf == frq[p] and pa == a[p] and a[p - 1] <= a[p] >= a[p + 1] and il < p < ih
+            if (pf == frq[p] and pa == a[p] and flat_top(p) and il < p < ih
                     and (lo is None or frq[p] > lo) and (hi is None or frq[p] < hi)
                     and all(a[i] <= pa for i in strict_set)):
                 return True
@@ -418,6 +444,15 @@ def _build(spec):
 def replay(spec):
     frq, ranges, rows = _build(spec)
     lo, hi = ranges[-1]
+    if spec.get("check") == "curve-vs-window":
+        import hvsrpy
+        for row in rows:
+            c = hvsrpy.HvsrCurve(frq, row[0])
+            for r in ranges:
+                c.update_peaks_bounded(search_range_in_hz=r)
+            a, b = float(row[1]), float(c.peak_frequency)
+            if not ((a != a and b != b) or (a == b and float(row[2]) == float(c.peak_amplitude))):
+                return {"reproduced": True, "key": "object-types-disagree", "detail": f"curve {list(row[0])} range {(lo, hi)}: window peak ({row[1]}, {row[2]}) vs HvsrCurve ({c.peak_frequency}, {c.peak_amplitude})"}
     worst = None
     for row in rows:
         a, pf, pa = row[0], float(row[1]), float(row[2])
